@@ -171,27 +171,20 @@ class QintImp(int, Qtype):
         (x << 3) + (x << 1) # Here 10*x is computed as x*2^3 + x*2
         """
 
-        # Multiply t_num by the nearest n | 2**n < t_const
-        n = 1
-        while 2**n <= const:
-            n += 1
-        if 2**n > const:
-            n -= 1
-
         result_ttype = cast(TType, result_type)
+        t_num_f = result_type.fill((result_ttype, t_num[1]))
 
-        t_num_r = result_type.shift_left((result_ttype, t_num[1]), n)
+        # Sum t_num << k for every bit k set in const
+        res = None
+        for k in range(const.bit_length()):
+            if (const >> k) & 1 == 0:
+                continue
 
-        # Shift t_const by t_const - 2**n
-        r = const - 2**n
-        if r > 0:
-            # Add the shift result to t_num
-            res = result_type.add(
-                (result_ttype, t_num_r[1]),
-                result_type.shift_left((result_ttype, t_num[1]), int(r / 2)),
-            )
-        else:
-            res = (result_ttype, t_num_r[1])
+            term = result_type.shift_left(t_num_f, k)
+            res = term if res is None else result_type.add(res, term)
+
+        if res is None:
+            res = result_type.const(0)
 
         return res
 
